@@ -38,13 +38,13 @@ META = {
 
 
 def run(rep):
-    cache(rep)
+    rep.run(cache)
     sites = parallel_sites(rep)
-    agreement(rep, sites)
-    effects(rep)
-    dedupe(rep)
-    batching(rep)
-    sweep(rep)
+    rep.run(agreement, sites)
+    rep.run(effects)
+    rep.run(dedupe)
+    rep.run(batching)
+    rep.run(sweep)
 
 
 # ------------------------------------------------------------------ O14.1
